@@ -387,7 +387,7 @@ void ezc3d::c3d::analog(const std::string &name)
 
 void ezc3d::c3d::analog(const std::vector<ezc3d::DataNS::Frame> &frames)
 {
-    if (frames.size() != data().nbFrames())
+    if (frames.size() == 0 || frames.size() != data().nbFrames())
         throw std::invalid_argument("Size of the array of frames must equal the number of frames already "
                                     "present in the data set");
     if (frames[0].analogs().nbSubframes() != header().nbAnalogByFrame())
